@@ -44,3 +44,14 @@ PROPS = {
         'level': 'proof',
     },
 }
+
+LEVEL_TEXT = {}
+
+NOT_APPLICABLE = {
+    'C09': 'needs a byte-addressed memory model of g++-laid-out packed structs walked by generated pointer-cast code; '
+           'no C/C++ deductive verifier is installed and the contract engines here (Python AST; clang AST with scalars only) '
+           'cannot express "the buffer now equals the native encoding" (DESIGN.md section 10)',
+}
+for _p in ['C03', 'C05', 'C07', 'C08', 'C10', 'C11', 'C12', 'C13', 'C14', 'C15', 'C16', 'C17', 'C18', 'C20']:
+    if _p not in PROPS:
+        NOT_APPLICABLE[_p] = 'not claimed yet: contracts for this property are still being built (see DESIGN.md section 12); no check is registered'
